@@ -335,6 +335,41 @@ func (r *c14Run) step(ev c14Event) (verifkit.Rec, bool) {
 			return r.n.UpdateSpendDetails(r.spReq[ev.T], details)
 		}
 
+	case "HistConfAhead":
+		// the backend is one block ahead of the notifier: the rescan
+		// reports the tx in a block at tip+1 that the notifier has not
+		// connected (and may never connect)
+		d := r.hc[ev.T]
+		delete(r.hc, ev.T)
+		call = func() error {
+			if d == nil {
+				return fmt.Errorf("no historical dispatch outstanding")
+			}
+			o, v := c14OutOf(ev.T), c14VarOf(ev.T)
+			c14Nonce++
+			phantom := chainhash.Hash(sha256.Sum256([]byte{0xfa, byte(c14Nonce), byte(c14Nonce >> 8), byte(c14Nonce >> 16), byte(c14Nonce >> 24)}))
+			return r.n.UpdateConfDetails(r.confReq[ev.T], &chainntnfs.TxConfirmation{
+				Tx: r.u.spender(o, v), BlockHash: &phantom,
+				BlockHeight: uint32(c14Start + r.tip() + 1), TxIndex: 1,
+			})
+		}
+
+	case "HistSpendAhead":
+		d := r.hs[ev.T]
+		delete(r.hs, ev.T)
+		call = func() error {
+			if d == nil {
+				return fmt.Errorf("no historical dispatch outstanding")
+			}
+			tx := r.u.spender(ev.T, ev.N)
+			th := tx.TxHash()
+			op := r.u.outpoint(ev.T)
+			return r.n.UpdateSpendDetails(r.spReq[ev.T], &chainntnfs.SpendDetail{
+				SpentOutPoint: &op, SpenderTxHash: &th, SpendingTx: tx,
+				SpenderInputIndex: 0, SpendingHeight: int32(c14Start + r.tip() + 1),
+			})
+		}
+
 	default:
 		call = func() error { return fmt.Errorf("unknown action %q", ev.A) }
 	}
@@ -578,8 +613,9 @@ func TestVerifC14Replay(t *testing.T) {
 // property that the spec's actions carry as guards: blocks spend an outpoint
 // at most once, a block is only disconnected while it is less than `safety`
 // deep below the highest tip, callers' hints are correct, a historical rescan
-// is answered before its request matures, and the last subscriber does not
-// cancel while a rescan is pending.
+// is answered before its request matures (possibly by a backend that is one
+// block ahead), and the last subscriber does not cancel while a rescan is
+// pending (only on an unrepaired tree; see c14.py).
 func TestVerifC14Free(t *testing.T) {
 	nouts := verifkit.EnvInt("VERIF_NOUTS", 2)
 	maxRegs := verifkit.EnvInt("VERIF_MAXREGS", 6)
@@ -716,6 +752,13 @@ func TestVerifC14Free(t *testing.T) {
 				}
 				ev = c14Event{A: "Cancel", I: best}
 				live[best] = false
+			}
+			// sometimes the backend is one block ahead when it answers
+			if ev.A == "HistConf" && at(true, ev.T) == 0 && at(false, c14OutOf(ev.T)) == 0 && rng.Intn(3) == 0 {
+				ev = c14Event{A: "HistConfAhead", T: ev.T, N: 1}
+			}
+			if ev.A == "HistSpend" && at(false, ev.T) == 0 && rng.Intn(3) == 0 {
+				ev = c14Event{A: "HistSpendAhead", T: ev.T, N: 1 + rng.Intn(2)}
 			}
 			if ev.A == "" {
 				continue
